@@ -105,3 +105,239 @@ SEARCH = {'c22_lookahead_filter': ['c22_lookahead']}
 BOUNDED = {'C22': [dict(case='c22_lookahead', function='src/context.rs::SelectionFieldsIter::next / SelectionField::{arguments, selection_set} and Lookahead through Context::look_ahead (as seen by a resolver during Schema::execute)',
                         bound='12 documents (duplicated fields, aliases, inline fragments with and without type condition, nested spreads, variable arguments) x 9 look-ahead paths + the full recursive selection view',
                         why='SelectionFieldsIter is a hand-written iterator over a stack of boxed iterators (dyn Iterator); not within Verus; filter / Lookahead::field are under contract')]}
+
+
+# ----------------------------------------------------------------------------------------------------------------------
+# the selection-field view: SelectionFieldsIter::next yields every sub-field, in document order, through fragments
+ITER_SHIMS = r'''
+pub struct Context { pub _p: u8 }   // opaque: only carried along
+// std::slice::Iter<'a, Positioned<Selection>>: the slice and the index of the next element (R-ty)
+pub struct SelIter<'a> { pub items: &'a Vec<Positioned<Selection>>, pub pos: usize }
+pub fn sel_iter<'a>(items: &'a Vec<Positioned<Selection>>) -> (r: SelIter<'a>) ensures r.items == items, r.pos == 0 { SelIter { items, pos: 0 } }
+pub open spec fn frame_wf(f: SelIter) -> bool { f.pos <= f.items@.len() }
+// `let it = stack.last_mut()?; let item = it.next();` as one step on the stack of iterators
+pub fn stack_top_next<'a>(st: &mut Vec<SelIter<'a>>) -> (r: Option<Option<&'a Positioned<Selection>>>)
+    requires forall|i: int| 0 <= i < old(st)@.len() ==> frame_wf(#[trigger] old(st)@[i])
+    ensures
+        old(st)@.len() == 0 ==> r is None && final(st)@ == old(st)@,
+        old(st)@.len() > 0 ==> r is Some && final(st)@.len() == old(st)@.len() && final(st)@.drop_last() == old(st)@.drop_last()
+            && final(st)@.last().items == old(st)@.last().items
+            && (if old(st)@.last().pos < old(st)@.last().items@.len() {
+                    r->Some_0 == Some(&old(st)@.last().items@[old(st)@.last().pos as int]) && final(st)@.last().pos == old(st)@.last().pos + 1
+                } else { r->Some_0 is None && final(st)@.last().pos == old(st)@.last().pos }),
+{
+    if st.len() == 0 { return None; }
+    let top = st.pop().unwrap();
+    if top.pos < top.items.len() {
+        let item = &top.items[top.pos];
+        st.push(SelIter { items: top.items, pos: top.pos + 1 });
+        proof { assert(st@.drop_last() =~= old(st)@.drop_last()); }
+        Some(Some(item))
+    } else {
+        st.push(top);
+        proof { assert(st@ =~= old(st)@); }
+        Some(None)
+    }
+}
+'''
+
+ITER_SPEC = r'''
+pub type Frags = NameMap<Positioned<FragmentDefinition>>;
+pub open spec fn frag_items(frags: Frags, sel: Selection) -> Option<Seq<Positioned<Selection>>> {
+    match sel {
+        Selection::Field(f) => None,
+        Selection::FragmentSpread(s) => if frags.view().contains_key(s.node.fragment_name.node@) { Some(frags.view()[s.node.fragment_name.node@].node.selection_set.node.items@) } else { None },
+        Selection::InlineFragment(i) => Some(i.node.selection_set.node.items@),
+    }
+}
+pub open spec fn flat_from(frags: Frags, items: Seq<Positioned<Selection>>, k: nat, fuel: nat) -> bool decreases fuel, items.len() - k {
+    if fuel == 0 { false } else if k >= items.len() { true } else {
+        (frag_items(frags, items[k as int].node) is Some ==> flat_from(frags, frag_items(frags, items[k as int].node)->Some_0, 0, (fuel - 1) as nat))
+        && flat_from(frags, items, k + 1, fuel)
+    }
+}
+// all fields execution resolves for items[k..], in document order, through inline fragments and spreads
+pub open spec fn fields_from(frags: Frags, items: Seq<Positioned<Selection>>, k: nat, fuel: nat) -> Seq<Field> decreases fuel, items.len() - k {
+    if fuel == 0 || k >= items.len() { Seq::empty() } else {
+        (match items[k as int].node {
+            Selection::Field(f) => seq![f.node],
+            other => if frag_items(frags, other) is Some { fields_from(frags, frag_items(frags, other)->Some_0, 0, (fuel - 1) as nat) } else { Seq::empty() },
+        }) + fields_from(frags, items, k + 1, fuel)
+    }
+}
+pub proof fn lemma_flat_mono(frags: Frags, items: Seq<Positioned<Selection>>, k: nat, fuel: nat)
+    requires flat_from(frags, items, k, fuel)
+    ensures flat_from(frags, items, k, fuel + 1), fields_from(frags, items, k, fuel + 1) == fields_from(frags, items, k, fuel)
+    decreases fuel, items.len() - k
+{
+    if k < items.len() {
+        if frag_items(frags, items[k as int].node) is Some { lemma_flat_mono(frags, frag_items(frags, items[k as int].node)->Some_0, 0, (fuel - 1) as nat); }
+        lemma_flat_mono(frags, items, k + 1, fuel);
+    }
+}
+// remaining fields of a stack of iterators: the top frame (last) first
+pub open spec fn stack_fields(frags: Frags, st: Seq<SelIter>, n: nat, fuel: nat) -> Seq<Field> decreases n {
+    if n == 0 || n > st.len() { Seq::empty() } else { fields_from(frags, st[n - 1].items@, st[n - 1].pos as nat, fuel) + stack_fields(frags, st, (n - 1) as nat, fuel) }
+}
+pub open spec fn stack_flat(frags: Frags, st: Seq<SelIter>, fuel: nat) -> bool { forall|i: int| 0 <= i < st.len() ==> flat_from(frags, (#[trigger] st[i]).items@, st[i].pos as nat, fuel) }
+pub open spec fn stack_wf(st: Seq<SelIter>) -> bool { forall|i: int| 0 <= i < st.len() ==> frame_wf(#[trigger] st[i]) }
+pub proof fn lemma_stack_prefix(frags: Frags, a: Seq<SelIter>, b: Seq<SelIter>, n: nat, fuel: nat)
+    requires n <= a.len(), n <= b.len(), forall|i: int| 0 <= i < n ==> a[i] == b[i]
+    ensures stack_fields(frags, a, n, fuel) == stack_fields(frags, b, n, fuel) decreases n
+{ if n > 0 { lemma_stack_prefix(frags, a, b, (n - 1) as nat, fuel); } }
+
+
+// one loop step that opens a fragment: the top frame advanced past a fragment-like selection whose items are pushed as a new frame
+pub open spec fn lemma_push_pre(fr: Frags, pre: Seq<SelIter>, mid: Seq<SelIter>, cur: Seq<SelIter>, old_st: Seq<SelIter>) -> bool {
+    (pre.len() > 0)
+    && (mid.len() == pre.len())
+    && (cur.len() == pre.len() + 1)
+    && (stack_wf(pre))
+    && (forall|i: int| 0 <= i < pre.len() - 1 ==> mid[i] == pre[i])
+    && (mid.last().items == pre.last().items)
+    && (pre.last().pos < pre.last().items@.len())
+    && (mid.last().pos == pre.last().pos + 1)
+    && (forall|i: int| 0 <= i < mid.len() ==> cur[i] == mid[i])
+    && (frag_items(fr, pre.last().items@[pre.last().pos as int].node) == Some(cur.last().items@))
+    && (cur.last().pos == 0)
+    && (forall|fuel: nat| #[trigger] stack_flat(fr, old_st, fuel) ==> stack_flat(fr, pre, fuel) && stack_fields(fr, old_st, old_st.len(), fuel) == stack_fields(fr, pre, pre.len(), fuel))
+}
+pub proof fn lemma_push(fr: Frags, pre: Seq<SelIter>, mid: Seq<SelIter>, cur: Seq<SelIter>, old_st: Seq<SelIter>)
+    requires lemma_push_pre(fr, pre, mid, cur, old_st),
+    ensures stack_wf(cur),
+        forall|fuel: nat| #[trigger] stack_flat(fr, old_st, fuel) ==> stack_flat(fr, cur, fuel) && stack_fields(fr, old_st, old_st.len(), fuel) == stack_fields(fr, cur, cur.len(), fuel),
+{
+    let n = pre.len() as int;
+    assert forall|fuel: nat| #[trigger] stack_flat(fr, old_st, fuel) implies stack_flat(fr, cur, fuel) && stack_fields(fr, old_st, old_st.len(), fuel) == stack_fields(fr, cur, cur.len(), fuel) by {
+        assert(flat_from(fr, pre[n - 1].items@, pre[n - 1].pos as nat, fuel));
+        assert(fuel > 0);
+        lemma_flat_mono(fr, cur.last().items@, 0, (fuel - 1) as nat);
+        lemma_stack_prefix(fr, pre, mid, (n - 1) as nat, fuel);
+        lemma_stack_prefix(fr, mid, cur, n as nat, fuel);
+        assert forall|i: int| 0 <= i < cur.len() implies flat_from(fr, (#[trigger] cur[i]).items@, cur[i].pos as nat, fuel) by { if i < n - 1 { assert(flat_from(fr, pre[i].items@, pre[i].pos as nat, fuel)); } }
+        assert(stack_fields(fr, cur, cur.len(), fuel) =~= stack_fields(fr, pre, pre.len(), fuel));
+    }
+    assert forall|i: int| 0 <= i < cur.len() implies frame_wf(#[trigger] cur[i]) by { if i < n - 1 { assert(frame_wf(pre[i])); } }
+}
+pub open spec fn lemma_skip_pre(fr: Frags, pre: Seq<SelIter>, mid: Seq<SelIter>, old_st: Seq<SelIter>) -> bool {
+    (pre.len() > 0)
+    && (mid.len() == pre.len())
+    && (stack_wf(pre))
+    && (forall|i: int| 0 <= i < pre.len() - 1 ==> mid[i] == pre[i])
+    && (mid.last().items == pre.last().items)
+    && (pre.last().pos < pre.last().items@.len())
+    && (mid.last().pos == pre.last().pos + 1)
+    && (!(pre.last().items@[pre.last().pos as int].node is Field))
+    && (frag_items(fr, pre.last().items@[pre.last().pos as int].node) is None)
+    && (forall|fuel: nat| #[trigger] stack_flat(fr, old_st, fuel) ==> stack_flat(fr, pre, fuel) && stack_fields(fr, old_st, old_st.len(), fuel) == stack_fields(fr, pre, pre.len(), fuel))
+}
+pub proof fn lemma_skip(fr: Frags, pre: Seq<SelIter>, mid: Seq<SelIter>, old_st: Seq<SelIter>)
+    requires lemma_skip_pre(fr, pre, mid, old_st),
+    ensures
+        forall|fuel: nat| #[trigger] stack_flat(fr, old_st, fuel) ==> stack_flat(fr, mid, fuel) && stack_fields(fr, old_st, old_st.len(), fuel) == stack_fields(fr, mid, mid.len(), fuel),
+{
+    let n = pre.len() as int;
+    assert forall|fuel: nat| #[trigger] stack_flat(fr, old_st, fuel) implies stack_flat(fr, mid, fuel) && stack_fields(fr, old_st, old_st.len(), fuel) == stack_fields(fr, mid, mid.len(), fuel) by {
+        assert(flat_from(fr, pre[n - 1].items@, pre[n - 1].pos as nat, fuel));
+        lemma_stack_prefix(fr, pre, mid, (n - 1) as nat, fuel);
+        assert forall|i: int| 0 <= i < mid.len() implies flat_from(fr, (#[trigger] mid[i]).items@, mid[i].pos as nat, fuel) by { if i < n - 1 { assert(flat_from(fr, pre[i].items@, pre[i].pos as nat, fuel)); } }
+        assert(stack_fields(fr, mid, mid.len(), fuel) =~= stack_fields(fr, pre, pre.len(), fuel));
+    }
+}
+pub open spec fn lemma_pop_pre(fr: Frags, pre: Seq<SelIter>, mid: Seq<SelIter>, cur: Seq<SelIter>, old_st: Seq<SelIter>) -> bool {
+    (pre.len() > 0)
+    && (mid.len() == pre.len())
+    && (cur == mid.drop_last())
+    && (stack_wf(pre))
+    && (forall|i: int| 0 <= i < pre.len() - 1 ==> mid[i] == pre[i])
+    && (pre.last().pos >= pre.last().items@.len())
+    && (forall|fuel: nat| #[trigger] stack_flat(fr, old_st, fuel) ==> stack_flat(fr, pre, fuel) && stack_fields(fr, old_st, old_st.len(), fuel) == stack_fields(fr, pre, pre.len(), fuel))
+}
+pub proof fn lemma_pop(fr: Frags, pre: Seq<SelIter>, mid: Seq<SelIter>, cur: Seq<SelIter>, old_st: Seq<SelIter>)
+    requires lemma_pop_pre(fr, pre, mid, cur, old_st),
+    ensures stack_wf(cur),
+        forall|fuel: nat| #[trigger] stack_flat(fr, old_st, fuel) ==> stack_flat(fr, cur, fuel) && stack_fields(fr, old_st, old_st.len(), fuel) == stack_fields(fr, cur, cur.len(), fuel),
+{
+    let n = pre.len() as int;
+    assert forall|fuel: nat| #[trigger] stack_flat(fr, old_st, fuel) implies stack_flat(fr, cur, fuel) && stack_fields(fr, old_st, old_st.len(), fuel) == stack_fields(fr, cur, cur.len(), fuel) by {
+        lemma_stack_prefix(fr, pre, cur, (n - 1) as nat, fuel);
+        assert forall|i: int| 0 <= i < cur.len() implies flat_from(fr, (#[trigger] cur[i]).items@, cur[i].pos as nat, fuel) by { assert(flat_from(fr, pre[i].items@, pre[i].pos as nat, fuel)); }
+        assert(stack_fields(fr, cur, cur.len(), fuel) =~= stack_fields(fr, pre, pre.len(), fuel));
+    }
+    assert forall|i: int| 0 <= i < cur.len() implies frame_wf(#[trigger] cur[i]) by { assert(frame_wf(pre[i])); }
+}
+
+'''
+
+C = 'src/context.rs'
+
+
+def selection_iter_unit(kf):
+    u = Unit('c22_selection_iter', ['C22'], 'SelectionFieldsIter::next yields exactly the fields execution resolves below the field, in document order, through inline fragments and spreads')
+    u.kf = kf
+    value_types(u)
+    ast_types(u)
+    u.prelude('string_eq')
+    u.spec('pub type FragsT = NameMap<Positioned<FragmentDefinition>>;', 'alias')
+    ty = [Sub('HashMap<Name, Positioned<FragmentDefinition>>', 'NameMap<Positioned<FragmentDefinition>>', rule='R-ty'), Sub("Context<'a>", 'Context', rule='R-ty'),
+          Sub('pub(crate)', 'pub', count='*', rule='R-ty')]
+    u.trusted(ITER_SHIMS, 'slice::Iter / stack-of-iterators shims (stack_top_next is verified, only the (slice, index) representation is assumed)')
+    u.extract_type(C, ['struct SelectionField'], rewrites=ty)
+    u.extract_type(C, ['struct SelectionFieldsIter'], rewrites=ty + [Sub("Vec<std::slice::Iter<'a, Positioned<Selection>>>", "Vec<SelIter<'a>>", rule='R-ty')])
+    u.spec(ITER_SPEC, 'remaining-fields spec + step lemmas')
+    FR, O = '*old(self).fragments', 'old(self).iter@'
+    inv = (f'forall|fuel: nat| #[trigger] stack_flat({FR}, {O}, fuel) ==> stack_flat(*self.fragments, self.iter@, fuel) '
+           f'&& stack_fields({FR}, {O}, {O}.len(), fuel) == stack_fields(*self.fragments, self.iter@, self.iter@.len(), fuel)')
+    u.extract_fn(C, ["impl<'a> Iterator for SelectionFieldsIter<'a>", 'fn next'], wrap_impl="<'a> SelectionFieldsIter<'a>",
+                 sig_rewrites=[ReSub(r'Option<Self::Item>', "Option<SelectionField<'a>>")],
+                 rewrites=[Sub('let it = self.iter.last_mut()?; let item = it.next();', 'let item = stack_top_next(&mut self.iter)?;', rule='R-ty',
+                               why='Vec::last_mut followed by slice::Iter::next: one step on the (slice, index) stack; `?` still leaves when the stack is empty'),
+                           Sub('.push(fragment.node.selection_set.node.items.iter())', '.push(sel_iter(&fragment.node.selection_set.node.items))', rule='R-ty'),
+                           Sub('.push(inline_fragment.node.selection_set.node.items.iter())', '.push(sel_iter(&inline_fragment.node.selection_set.node.items))', rule='R-ty')],
+                 requires=['stack_wf(old(self).iter@)'],
+                 ensures=['stack_wf(final(self).iter@), final(self).fragments == old(self).fragments',
+                          f'''forall|fuel: nat| #[trigger] stack_flat({FR}, {O}, fuel) ==> stack_flat(*final(self).fragments, final(self).iter@, fuel) && (match r {{
+            Some(sf) => stack_fields({FR}, {O}, {O}.len(), fuel) == seq![*sf.field] + stack_fields(*final(self).fragments, final(self).iter@, final(self).iter@.len(), fuel),   // the next field, and nothing is lost
+            None => stack_fields({FR}, {O}, {O}.len(), fuel) == Seq::<Field>::empty(),                                                       // exhausted only when no field remains
+        }})'''],
+                 loops={0: dict(prop=[inv], aux=['stack_wf(self.iter@), self.fragments == old(self).fragments'],
+                                head='let ghost pre = self.iter@;',
+                                tail='''proof {
+    let cur = self.iter@;
+    match item {
+        Some(selection) => match selection.node {
+            Selection::Field(_) => {},
+            Selection::FragmentSpread(_) => { if lemma_push_pre(fr, pre, mid, cur, old(self).iter@) { lemma_push(fr, pre, mid, cur, old(self).iter@); } else if cur == mid && lemma_skip_pre(fr, pre, mid, old(self).iter@) { lemma_skip(fr, pre, mid, old(self).iter@); } },
+            Selection::InlineFragment(_) => { if lemma_push_pre(fr, pre, mid, cur, old(self).iter@) { lemma_push(fr, pre, mid, cur, old(self).iter@); } },
+        },
+        None => { if lemma_pop_pre(fr, pre, mid, cur, old(self).iter@) { lemma_pop(fr, pre, mid, cur, old(self).iter@); } },
+    }
+}''')},
+                 inserts=[('after', 'let item = stack_top_next(&mut self.iter)?;', '''let ghost mid = self.iter@;
+let ghost n = pre.len();
+let ghost fr = *self.fragments;
+proof {
+    assert(n > 0);
+    assert forall|i: int| 0 <= i < n - 1 implies mid[i] == pre[i] by { assert(mid.drop_last()[i] == pre.drop_last()[i]); }
+    assert(mid[n - 1].items == pre[n - 1].items);
+    assert(stack_wf(mid));
+}'''),
+                          ('before', 'return Some(SelectionField {', '''proof {
+    assert forall|fuel: nat| #[trigger] stack_flat(fr, old(self).iter@, fuel) implies stack_flat(fr, mid, fuel)
+        && stack_fields(fr, old(self).iter@, old(self).iter@.len(), fuel) == seq![field.node] + stack_fields(fr, mid, mid.len(), fuel) by {
+        assert(stack_flat(fr, pre, fuel));
+        assert(flat_from(fr, pre[n - 1].items@, pre[n - 1].pos as nat, fuel));
+        lemma_stack_prefix(fr, pre, mid, (n - 1) as nat, fuel);
+        assert forall|i: int| 0 <= i < mid.len() implies flat_from(fr, (#[trigger] mid[i]).items@, mid[i].pos as nat, fuel) by { if i < n - 1 { assert(flat_from(fr, pre[i].items@, pre[i].pos as nat, fuel)); } }
+    }
+}''')],
+                 attrs=['#[verifier::exec_allows_no_decreases_clause]'])
+    u.assume("std::slice::Iter<'a, T> is represented as (slice, index of the next element) and Vec<Iter> as a Vec of such frames (R-ty); stack_top_next (last_mut + next) is verified against that representation")
+    u.assume('termination of next() is not proved (a cyclic fragment spread loops forever; validation rejects cyclic fragments before execution -- unverified call order); the contract holds for every finite fragment expansion (fuel)')
+    u.assume('SelectionField::selection_set (which builds the initial one-frame stack) and arguments() are not under contract here (arguments: C06 context unit)')
+    u.search_case('context.rs', 'c22_lookahead')
+    return u
+
+
+UNITS['c22_selection_iter'] = (['C22'], selection_iter_unit)
+SEARCH['c22_selection_iter'] = ['c22_lookahead']
